@@ -602,6 +602,8 @@ def foreign_names(c):
         out += [f"{fixed}{sep}{cur}x{dot}", f"{fixed}{sep}{cur}{dot}.gz", f"{fixed}{sep}x{cur}{dot}"]
     if dot:
         out += [f"{fixed}{sep}{i0}"]                  # suffix missing
+        # names that consist of the text of the suffix only, or are shorter than it (no dot in front of it)
+        out += [sfx, sfx[1:] or "x", f"{fixed}{sep}{sfx}", f"{fixed}{sfx}"]
     if fixed and c.get("rot", True):
         out += [f"{fixed}{dot}"] if dot else []       # the non-rotating name
     # no duplicates, nothing that is a family name
@@ -1864,6 +1866,9 @@ def C10(tier, seed):
                 c["fmt"] = C10_FMT[mc["fmtc"]] or "r%Y-%m-%d_%H-%M-%S"
                 if mc["naming"] == "TsC":
                     c["cur"] = "rNOW"
+            if mc["dirc"] == "near_miss" and j % 2 == 1:
+                # other fixed name parts: none at all, a basename equal to the suffix, a discriminant only
+                c.update(rng.choice([{"basename": ""}, {"basename": "log"}, {"basename": "", "discr": "d"}, {"basename": "log", "suffix": "-"}]))
             steps = _c10_dir_steps(mc["dirc"], c, rng)
             steps.append({"op": "Start", "append": bool(mc["append"])})
             steps.append({"op": "Log", "len": 20, "probe": True})
